@@ -114,12 +114,15 @@ def run(prop, tier, seed, replay):
         return ("slice", rng.choice(cands), rng.choice(cands))
 
     for ci in range(n_cases):
-        case = G.rand_corrfunc_parts(rng, N=rng.choice([1, 2, 3, 4, 6]), B=rng.choice([1, 2, 3, 5]),
+        OPS = ["mul", "add", "add", "add", "bins", "bins", "bins", "patches", "patches", "iter", "eq", "add"]
+        op = OPS[ci % len(OPS)]          # stratified: every operation / variant is exercised in every run
+        # stratum: non-contiguous selections (step > 1) on at least three bins / patches, in every run
+        forced_step = op in ("bins", "patches") and ci % len(OPS) in (4, 7)
+        case = G.rand_corrfunc_parts(rng, N=rng.choice([3, 4, 6] if forced_step else [1, 2, 3, 4, 6]),
+                                     B=rng.choice([3, 5] if forced_step else [1, 2, 3, 5]),
                                      mask=rng.choice([1, 2, 3, 5, 7]))
         parts = case["parts"]
         cf = CorrFunc(parts["dd"], parts.get("dr"), parts.get("rd"), parts.get("rr"))
-        OPS = ["mul", "add", "add", "add", "bins", "bins", "bins", "patches", "patches", "iter", "eq", "add"]
-        op = OPS[ci % len(OPS)]          # stratified: every operation / variant is exercised in every run
         entry = dict(case=case, cf=cf, op=op, idx=ci)
         if op == "mul":
             s = rng.choice([2, 0.5, -1, 3, 0, 1.5, 10, 1])
@@ -158,7 +161,7 @@ def run(prop, tier, seed, replay):
             entry["variant"] = variant
         elif op in ("bins", "patches"):
             n = case["B"] if op == "bins" else case["N"]
-            kind, a, b = pick_index(n)
+            kind, a, b = (("step", 2), rng.choice([None, 0, 1]), None) if forced_step else pick_index(n)
             entry["index"] = (kind, a, b)
             if kind == "int":
                 enc = f"int {a}"
@@ -310,6 +313,28 @@ def run(prop, tier, seed, replay):
                 ck.add_violation("equality is not reflexive/structural", {"class": "CorrFunc", "op": "eq"})
             if case_differs(cf, parts, rng):
                 ck.add_violation("containers with different counts compare equal", {"class": "CorrFunc", "op": "eq"})
+            # different member sets over identical shared members: unequal in BOTH directions (symmetry)
+            names = ["dr", "rd", "rr"]
+            present = [k for k in names if parts.get(k) is not None]
+            absent = [k for k in names if parts.get(k) is None]
+            variants = []
+            if present:
+                drop = rng.choice(present)
+                variants.append((f"without {drop}", {k: (None if k == drop else parts.get(k)) for k in names}))
+            if absent:
+                add = rng.choice(absent)
+                variants.append((f"with extra {add}", {k: (parts["dd"] if k == add else parts.get(k)) for k in names}))
+            for label, mem in variants:
+                other, err = attempt(lambda: CorrFunc(parts["dd"], mem["dr"], mem["rd"], mem["rr"]))
+                if err:
+                    continue          # (dd alone is not a valid CorrFunc)
+                ck.count("eq:member-sets")
+                ab, e1 = attempt(lambda: cf == other)
+                ba, e2 = attempt(lambda: other == cf)
+                if e1 or e2 or ab or ba or not (cf != other) or not (other != cf):
+                    ck.add_violation(f"CorrFunc with members {sorted(cf.to_dict())} vs the same {label}: a == b is {ab}, "
+                                     f"b == a is {ba} (both must be False)" + (f" [{e1 or e2}]" if (e1 or e2) else ""),
+                                     {"class": "CorrFunc", "op": "eq", "members": sorted(cf.to_dict()), "other": label})
 
     # ---- CorrData (SampledData) algebra ---------------------------------------------------
     from yaw.correlation.corrdata import CorrData
